@@ -345,6 +345,81 @@ func (s *sim) checkBlockCodec(b *blockRec) {
 	}
 }
 
+// sszPlain: the spec-independent SSZ object interface (SpecObj values are wrapped with spec.Wrap).
+type sszPlain interface {
+	Serialize(w *codec.EncodingWriter) error
+	Deserialize(dr *codec.DecodingReader) error
+	ByteLength() uint64
+	FixedLength() uint64
+	HashTreeRoot(h tree.HashFn) common.Root
+}
+
+func serPlain(v sszPlain) []byte {
+	var buf bytes.Buffer
+	if err := v.Serialize(codec.NewEncodingWriter(&buf)); err != nil {
+		return nil
+	}
+	return buf.Bytes()
+}
+
+// wireCheck: a gossip message crosses the wire (C04/C05 at the gossip seam). v is the message,
+// fresh() allocates an empty one of the same type, fixedSize says what the SSZ schema says.
+func (s *sim) wireCheck(name string, v sszPlain, fresh func() sszPlain, fixedSize bool) {
+	if s.stop {
+		return
+	}
+	s.res.Stat("seam_crossings_"+name, 1)
+	b := serPlain(v)
+	if b == nil {
+		s.viol("C04", "gossip/"+name+"/serialize-error", "Serialize of an honestly produced message failed")
+		return
+	}
+	if uint64(len(b)) != v.ByteLength() {
+		s.viol("C04", "gossip/"+name+"/byte-length", fmt.Sprintf("ByteLength() = %d, Serialize wrote %d bytes", v.ByteLength(), len(b)))
+		return
+	}
+	if fl := v.FixedLength(); (fixedSize && fl != uint64(len(b))) || (!fixedSize && fl != 0) {
+		s.viol("C04", "gossip/"+name+"/fixed-length", fmt.Sprintf("FixedLength() = %d for a %d-byte value of a type whose schema is fixed-size=%v", fl, len(b), fixedSize))
+		return
+	}
+	d := fresh()
+	if err := d.Deserialize(codec.NewDecodingReader(bytes.NewReader(b), uint64(len(b)))); err != nil {
+		s.viol("C04", "gossip/"+name+"/decode-own-bytes", err.Error())
+		return
+	}
+	if !bytes.Equal(serPlain(d), b) {
+		s.viol("C04", "gossip/"+name+"/roundtrip", "decode(encode(v)) encodes differently")
+		return
+	}
+	if d.HashTreeRoot(tree.GetHashFn()) != v.HashTreeRoot(tree.GetHashFn()) {
+		s.viol("C05", "gossip/"+name+"/root-after-roundtrip", "the decoded copy has another hash-tree-root than the value that was sent")
+		return
+	}
+	d2 := fresh()
+	if err := d2.Deserialize(codec.NewDecodingReader(&shortReader{r: bytes.NewReader(b), n: 1 + s.frng.Intn(5), errAt: -1}, uint64(len(b)))); err != nil || !bytes.Equal(serPlain(d2), b) {
+		s.viol("C04", "gossip/"+name+"/short-reads", fmt.Sprintf("decoding from a reader that returns few bytes per Read fails or differs: %v", err))
+		return
+	}
+	if len(b) > 1 {
+		cut := s.frng.Intn(len(b)-1) + 1
+		d3 := fresh()
+		if err := d3.Deserialize(codec.NewDecodingReader(bytes.NewReader(b[:cut]), uint64(cut))); err == nil && !bytes.Equal(serPlain(d3), b[:cut]) {
+			s.viol("C04", "gossip/"+name+"/truncated-accepted", fmt.Sprintf("%d of %d bytes decoded without error although they are not a valid encoding", cut, len(b)))
+			return
+		}
+	}
+	js, err := json.Marshal(v)
+	if err != nil {
+		s.viol("C04", "gossip/"+name+"/json-marshal", err.Error())
+		return
+	}
+	d4 := fresh()
+	if err := json.Unmarshal(js, d4); err != nil || !bytes.Equal(serPlain(d4), b) {
+		s.viol("C04", "gossip/"+name+"/json-roundtrip", fmt.Sprintf("JSON round trip fails or changes the value: %v", err))
+		return
+	}
+}
+
 // ---------- C15: accessors on reached states ----------
 
 func (s *sim) rawOf(st common.BeaconState) interface{} {
